@@ -12,6 +12,8 @@ pub enum X {
     AppWhoAreYou { node: usize, wref: WhoAreYouRef, enr: Option<Enr> },
     AppRespond { node: usize, to: NodeAddress, resp: Response },
     Submit { node: usize, peer: usize },
+    /// re-deliver an earlier genuine datagram of a peer to the victim (late duplicate / replay)
+    ReplayOld { pick: u32 },
     Idle,
 }
 
@@ -58,6 +60,10 @@ async fn ttl_async(ctx: &mut Ctx) {
         let peer = 1 + ctx.tape.choose(np as u32) as usize;
         let (node, p) = if ctx.tape.choose(3) == 0 { (peer, 0) } else { (0, peer) };
         w.schedule(at, Ev::Custom(X::Submit { node, peer: p }));
+        if ctx.tape.choose(3) == 0 {
+            let pick = ctx.tape.choose(64);
+            w.schedule(at + 300, Ev::Custom(X::ReplayOld { pick }));
+        }
         let gap = match ctx.tape.choose(7) {
             0 => 50,
             1 => session_timeout_ms / 2,
@@ -73,8 +79,10 @@ async fn ttl_async(ctx: &mut Ctx) {
         }
     }
     w.horizon_ms = at + 3000;
-    // last use of each of V's sessions
-    let mut last_used: BTreeMap<usize, u64> = BTreeMap::new();
+    // reference: per peer the time of the last use of any of its (live) sessions, and the key-log
+    // index below which that peer's keys belong to an expired generation
+    let mut last_used: BTreeMap<[u8; 32], u64> = BTreeMap::new();
+    let mut dead_before: BTreeMap<[u8; 32], usize> = BTreeMap::new();
     let mut keys_seen = 0usize;
     let mut next_rid = 1u64;
     loop {
@@ -86,7 +94,17 @@ async fn ttl_async(ctx: &mut Ctx) {
         while keys_seen < w.keylog.len() {
             let (t, k) = &w.keylog[keys_seen];
             if k.local == w.nodes[0].id {
-                last_used.insert(keys_seen, *t);
+                // a fresh handshake with this peer: if its previous sessions had been idle for longer
+                // than the timeout they are gone for good (their keys must never be used again);
+                // otherwise this is a re-key of a live session
+                let peer = k.remote.raw();
+                if let Some(prev) = last_used.get(&peer) {
+                    if t.saturating_sub(*prev) > session_timeout_ms + 1 {
+                        dead_before.insert(peer, keys_seen);
+                        ctx.count("fresh_handshake_after_expiry");
+                    }
+                }
+                last_used.insert(peer, *t);
             }
             keys_seen += 1;
         }
@@ -98,7 +116,7 @@ async fn ttl_async(ctx: &mut Ctx) {
                     if let Some(d) = w.wire[wi].dec.clone() {
                         if matches!(d.kind, PacketKind::Message { .. }) {
                             if let Some(s) = session_of(&w, 0, &d, true) {
-                                use_session(ctx, &mut last_used, s, session_timeout_ms, "encrypted a message with");
+                                use_session(ctx, &w, &mut last_used, &dead_before, s, session_timeout_ms, "encrypted a message with");
                             } else {
                                 ctx.count("random_packets_from_victim");
                             }
@@ -108,6 +126,9 @@ async fn ttl_async(ctx: &mut Ctx) {
                 w.route(ctx, wi);
             }
             Obs::Sched(Ev::Deliver { to, src, bytes, origin }) => {
+                if to == 0 {
+                    refresh_on_inbound(&w, &mut last_used, &dead_before, &bytes, session_timeout_ms);
+                }
                 w.deliver(to, src, bytes, origin);
             }
             Obs::Sched(Ev::Custom(x)) => match x {
@@ -124,6 +145,17 @@ async fn ttl_async(ctx: &mut Ctx) {
                 X::AppRespond { node, to, resp } => {
                     w.send_in(node, HandlerIn::Response(to, Box::new(resp)));
                 }
+                X::ReplayOld { pick } => {
+                    let cands: Vec<usize> = w.wire.iter().enumerate().filter(|(_, r)| r.from != 0 && r.dst == w.nodes[0].addr && matches!(&r.dec, Some(d) if matches!(d.kind, PacketKind::Message { .. }))).map(|(i, _)| i).collect();
+                    if !cands.is_empty() {
+                        let wi = cands[pick as usize % cands.len()];
+                        let r = w.wire[wi].clone();
+                        ctx.fault("replay_of_old_datagram");
+                        ctx.ev(format!("t={} REPLAY of datagram #{wi} (emitted at {}ms) to the victim", now_ms(), r.t_ms));
+                        refresh_on_inbound(&w, &mut last_used, &dead_before, &r.bytes, session_timeout_ms);
+                        w.deliver(0, r.src, r.bytes.clone(), Origin::Mutated { wire: wi, how: "replay" });
+                    }
+                }
                 X::Idle => {}
             },
             Obs::Out { node, ev } => {
@@ -135,7 +167,7 @@ async fn ttl_async(ctx: &mut Ctx) {
                         if let Some(r) = carrier {
                             if let Ok(d) = toolkit::decode_packet(&w.nodes[0].id, &r.bytes) {
                                 if let Some(s) = session_of(&w, 0, &d, false) {
-                                    use_session(ctx, &mut last_used, s, session_timeout_ms, "accepted a message under");
+                                    use_session(ctx, &w, &mut last_used, &dead_before, s, session_timeout_ms, "accepted a message under");
                                 }
                             }
                         }
@@ -161,14 +193,41 @@ async fn ttl_async(ctx: &mut Ctx) {
             }
         }
     }
-    ctx.sample = Some(serde_json::json!({"sessions_created_at_victim": last_used.len(), "datagrams": w.wire.len()}));
+    ctx.sample = Some(serde_json::json!({"peers_with_sessions": last_used.len(), "datagrams": w.wire.len()}));
     w.shutdown();
 }
 
-fn use_session(ctx: &mut Ctx, last_used: &mut BTreeMap<usize, u64>, s: usize, timeout_ms: u64, what: &str) {
+/// A datagram that reaches the victim and decrypts under a live (not expired) session of its
+/// sender is a use of that session, whether or not a message is handed to the application
+/// (a replayed response is decrypted and then dropped as late).
+fn refresh_on_inbound(w: &HWorld<X>, last_used: &mut BTreeMap<[u8; 32], u64>, dead_before: &BTreeMap<[u8; 32], usize>, bytes: &[u8], timeout_ms: u64) {
+    let Ok(d) = toolkit::decode_packet(&w.nodes[0].id, bytes) else { return };
+    if !matches!(d.kind, PacketKind::Message { .. }) {
+        return;
+    }
+    if let Some(s) = session_of(w, 0, &d, false) {
+        let peer = w.keylog[s].1.remote.raw();
+        let dead = dead_before.get(&peer).map(|x| s < *x).unwrap_or(false);
+        let t = now_ms();
+        if !dead && last_used.get(&peer).map(|p| t.saturating_sub(*p) <= timeout_ms).unwrap_or(false) {
+            last_used.insert(peer, t);
+        }
+    }
+}
+
+fn use_session(ctx: &mut Ctx, w: &HWorld<X>, last_used: &mut BTreeMap<[u8; 32], u64>, dead_before: &BTreeMap<[u8; 32], usize>, s: usize, timeout_ms: u64, what: &str) {
     let t = now_ms();
     ctx.count("session_uses_checked");
-    if let Some(prev) = last_used.get(&s) {
+    let peer = w.keylog[s].1.remote.raw();
+    if dead_before.get(&peer).map(|d| s < *d).unwrap_or(false) {
+        ctx.fail(
+            "c15.expired-session-used",
+            format!("the victim {what} the keys of a session (#{s}) that had expired (idle longer than {timeout_ms}ms) before the peer's latest handshake"),
+            &["keys-of-expired-generation"],
+        );
+        return;
+    }
+    if let Some(prev) = last_used.get(&peer) {
         let idle = t.saturating_sub(*prev);
         if idle > timeout_ms + 1 {
             ctx.fail(
@@ -182,7 +241,7 @@ fn use_session(ctx: &mut Ctx, last_used: &mut BTreeMap<usize, u64>, s: usize, ti
             ctx.count("session_used_after_long_idle_within_timeout");
         }
     }
-    last_used.insert(s, t);
+    last_used.insert(peer, t);
     ctx.ev(format!("t={t} victim session #{s} used ({what})"));
 }
 
@@ -279,7 +338,7 @@ async fn capacity_async(ctx: &mut Ctx) {
                 X::AppRespond { node, to, resp } => {
                     w.send_in(node, HandlerIn::Response(to, Box::new(resp)));
                 }
-                X::Idle => {}
+                X::Idle | X::ReplayOld { .. } => {}
             },
             Obs::Out { node, ev } => match ev {
                 HandlerOut::WhoAreYou(wref) => {
